@@ -137,6 +137,21 @@ def handle : List String → String
         let r := Buf.scanAll fuel fuel (Buf.init n ⟨data, script⟩)
         renderNoCb r.1 r.2.1 r.2.2.arrays
     | _, _, _ => "bad-args"
+  | ["conc", kind, bs, _workers, d, sc] =>
+    -- held slices under concurrent consumers: nothing a consumer reads ever differs from the line it was given
+    -- (`held_slices_intact_at_every_call`, `held_slice_survives_every_step`); the line count is the model's
+    match bs.toNat?, parseRle d, parseScript sc with
+    | some n, some data, some script =>
+      let fuel := data.length + script.length + 3
+      if kind = "imm" then
+        s!"ok bad=0 lines={(Imm.scanAll fuel fuel (Imm.init n ⟨data, script⟩)).1.length}"
+      else if kind = "bat" then
+        s!"ok bad=0 lines={(Imm.scanAll fuel fuel (Imm.init Rare.Gen.readAheadBufferSize ⟨data, script⟩)).1.length}"
+      else if kind = "buf" then
+        if n ≤ 1 then "panic" else
+        s!"ok bad=0 lines={(Buf.scanAll fuel fuel (Buf.init n ⟨data, script⟩)).1.length}"
+      else "bad-args"
+    | _, _, _ => "bad-args"
   | ["split", d] =>
     match Hex.dec d with
     | some data => s!"ok {hexList (splitLines data)}"
